@@ -72,6 +72,15 @@ THEOREMS = [
     "IrVerif.Sort.C12_full_refines_state",
     "IrVerif.Sort.C12_state_pass_atomic",
     "IrVerif.Sort.C12_heappop_min_partial",
+    "IrVerif.Sort.C12_heap_invariant",
+    "IrVerif.Sort.C12_heap_refines_queue",
+    "IrVerif.Sort.C12_heap_extract_min",
+    "IrVerif.Sort.C12_heap_pops_increasing",
+    "IrVerif.Sort.C12_heap_kahn_refines",
+    "IrVerif.Sort.C12_heap_sort_refines",
+    "IrVerif.Sort.C12_passF_refines_passW",
+    "IrVerif.Sort.C12_pass_success_sorted",
+    "IrVerif.Sort.C12_passF_success_sorted",
 ]
 ASSUMPTIONS = [
     "Function.sort is `self._graph.sort()`: it is modelled as the same sortEffect on the function's graph; "
@@ -96,14 +105,27 @@ ASSUMPTIONS = [
     "checks and naming; only ValueError is handled - observation D391) and passW (containers only; C12_state_pass_atomic). Both "
     "are replayed on every traced pass; hypothesis PassHyp (every successful sort of the pass: well-formed tree, order is an "
     "arrangement of the keys) is evaluated by passHypB per pass (full_hyp_pass_hyp; false only with a shared empty Graph "
-    "object). That passF's containers equal passW's is compared per pass (full_passW_compared), not proved; 'success => each "
-    "graph-like is sorted at the end' is per sort (C12_state_sort at the time of that sort); trees of different graph-likes are "
-    "disjoint in every generated model",
-    "heapq on (negative position, node) pairs is modelled as extract-maximum-position in the sort models; the binary heap itself "
-    "(heapify / heappush / heappop with _siftup / _siftdown, CPython's heapq.py; the C accelerator is the same algorithm) is "
-    "transcribed in Model/Heap.lean and compared with the real heapq step by step; proved: on a list with the heap invariant "
-    "heappop returns a minimum (C12_heappop_min_partial); NOT proved: that the sift operations re-establish the invariant "
-    "(evaluated after every operation: heap_hyp_invariant) - so 'extract-min' remains trusted to that extent. That no two queue "
+    "object). Round 5: that passF's containers equal passW's is PROVED (C12_passF_refines_passW: for any world in which, at each "
+    "sort of the pass, node.graph names the listing container - passConsB, evaluated per pass: full_hyp_pass_cons; a refused pass "
+    "has written a prefix of passW's writes) and still compared per pass (full_passW_compared); 'success => EVERY graph-like "
+    "is sorted at the END of the pass' is proved (C12_pass_success_sorted / C12_passF_success_sorted: every graph of every "
+    "graph-like holds its entry of sortModel's result in the final world) under PassHyp and passDisjB (no later sort writes a "
+    "container of an earlier graph-like's tree; decidable, evaluated per pass: full_hyp_pass_disj); the tree of a graph-like is "
+    "the one its own sort read (that earlier sorts of disjoint trees do not change what a later traversal reads is not proved "
+    "separately)",
+    "heapq: the binary heap (heapify / heappush / heappop with _siftup / _siftdown, CPython's heapq.py; the C accelerator is the "
+    "same algorithm) is transcribed in Model/Heap.lean and compared with the real heapq step by step. Round 5: 'heapq is an "
+    "extract-min priority queue' is no longer trusted: C12_heap_invariant proves that heapify establishes and heappush / heappop "
+    "re-establish the heap invariant and keep the multiset of keys, C12_heap_extract_min / _refines_queue that every pop returns "
+    "the smallest key present, and the Kahn loop is transcribed once more with the queue as it is in the code (Model/SortHeap.lean: "
+    "a list of keys len(nodes)-position under heapify / heappop / heappush, the popped node read off as nodes[position]); "
+    "C12_heap_kahn_refines proves for EVERY tree that it pops the same nodes as the maxKey loop of sortIds (so 'heappop returns "
+    "the queued node with the largest position' is derived), C12_heap_sort_refines that on well-formed trees it is sortModel. "
+    "Tie to the code: sortHeap's result is compared with the real sort on every case and the real queue is observed (the heapq "
+    "functions Graph.sort calls are wrapped): the list of positions before every heappop, the popped node and the final list are "
+    "compared with the model's heap list (sort.heaptrace). What the model abstracts: the tuples (neg index, node) are represented "
+    "by their first component (two entries with the same position are entries of the same node, nodeIndex being last-wins; a tie "
+    "would make Python compare two Node objects - no node is queued twice:). That no two queue "
     "entries ever carry the same position (so heapq never compares two Node objects) follows from C12_ids_shared_raises / "
     "C12_ids_refines (no node is queued twice). The dicts keyed by node are modelled twice: by position (sortModel, all correctness theorems) "
     "and by identity with a universe that may repeat a node (sortIds, the line-by-line transcription); C12_ids_refines proves "
@@ -330,6 +352,7 @@ def do_model_case(case, part):
         reqs = [b.encode(b.root) for b in bs]
         trees = [[b.gidmap[id(g)] for g in tree_graphs(b, b.root)] for b in bs]
         cyc = [flat_cycle(b, b.root) for b in bs]
+        lockd = [any(v.name is None and isinstance(v.const_value, RefusingTensor) for n in b.node.values() for v in n.outputs) for b in bs]
         t.events.append(world_tables(bs[0]))
         recs_ev = t.recs_event()
         t.events.append(recs_ev)
@@ -381,11 +404,26 @@ def do_model_case(case, part):
     if case.get("journal"):
         part.count("model_journal")
     has_locked = any(v.name is None and isinstance(v.const_value, RefusingTensor) for b in bs for n in b.node.values() for v in n.outputs)
+    # the first graph-like (in the order the pass sorts them) that cannot be sorted, and why: within one Graph.sort the
+    # cycle test comes before the checking phase, so a cyclic graph-like fails with ValueError whatever else it holds
+    first_bad = next(((("cycle" if cyc[j] else "locked"), j) for j in range(len(bs)) if cyc[j] or lockd[j]), None)
     if outcome == "raised:AttributeError" and has_locked:
-        # a later graph-like is rejected because a node cannot be re-added: the handler of the pass only catches
-        # ValueError, so graph-likes sorted earlier in the same call keep their new order (observation D391; the
-        # stateful model `passF` transcribes exactly that and is compared below)
-        part.count("observation=D391:pass-rejected-AttributeError:" + ("earlier-graphs-keep-new-order" if after != before else "nothing-changed"))
+        if first_bad is not None and first_bad[0] == "cycle":
+            # D392: the pass met a CYCLE; its restore loop re-extended a never-sorted graph-like holding the refusing
+            # tensor and was rejected: AttributeError reaches the caller instead of the ValueError the property promises
+            part.fail(f"{sig}:cycle:raises-AttributeError",
+                      "a graph-like has a cycle but the pass raised AttributeError (restore loop re-extends never-sorted graph-likes) instead of ValueError", rec)
+            if after != before:
+                part.fail("TopologicalSortPass:model-partially-sorted-on-cycle",
+                          "a cycle was met but graphs sorted earlier in the same call keep their new order", rec)
+            if any(nafter[i] != nbefore[i] for i in range(first_bad[1], len(bs))):
+                part.fail(f"{sig}:cycle:restore-loop-names-assigned",
+                          "cycle: the restore loop of the pass assigned names in graph-likes that were never sorted", rec)
+        else:
+            # a later graph-like is rejected because a node cannot be re-added: the handler of the pass only catches
+            # ValueError, so graph-likes sorted earlier in the same call keep their new order (observation D391; the
+            # stateful model `passF` transcribes exactly that and is compared below)
+            part.count("observation=D391:pass-rejected-AttributeError:" + ("earlier-graphs-keep-new-order" if after != before else "nothing-changed"))
         r = {"kind": "model-refused", "case": case, "outcome": outcome, "after": [{str(k): v for k, v in aft.items()} for aft in after],
              "state": state_record(t)}
         return {"recs": [r], "outcome": [outcome], "after": [r["after"]]}
@@ -393,8 +431,19 @@ def do_model_case(case, part):
         part.fail(f"{sig}:raises-{outcome[7:]}", f"pass raised {outcome[7:]}", rec)
         return None
     if outcome == "raised":
-        if nafter != nbefore and not (inj_info and inj_info["unnamed"]):
-            part.fail(f"{sig}:cycle-names-changed", "ValueError raised but names / node.graph / a name authority changed", rec)
+        if nafter != nbefore:
+            j0 = next((j for j in range(len(bs)) if cyc[j]), 0)
+            named_only = all(only_named(x, y) for x, y in zip(nbefore, nafter))
+            if named_only and any(nafter[i] != nbefore[i] for i in range(j0, len(bs))):
+                # D392: graph-likes from the cyclic one on were never sorted, yet the restore loop re-extended them
+                part.fail(f"{sig}:cycle:restore-loop-names-assigned",
+                          "cycle: ValueError raised but the restore loop of the pass assigned names in graph-likes that were never sorted", rec)
+            elif named_only:
+                # names assigned by the successful sorts of EARLIER graph-likes stay (orders are restored): outside the
+                # property's text ('no graph's order changes'), counted
+                part.count("observation=pass-cycle:earlier-sorted-graphs-keep-names")
+            else:
+                part.fail(f"{sig}:cycle-names-changed", "ValueError raised but names / node.graph / a name authority changed", rec)
         if not any(cyc):
             part.fail(f"{sig}:raise-without-cycle", "ValueError although no graph of the model has a cycle", rec)
         if after != before:
@@ -1176,6 +1225,71 @@ def pick_root(b: Built, case):
     return b.root
 
 
+class heap_spy:
+    """while active, the `heapq` name of onnx_ir._core is a recording proxy: per Graph.sort (= per heapify) the queue as
+    positions before every heappop, the popped node, the queue after the last call.  Appended to `b.heap_traces`.
+    Exceptions of the real functions pass through; an unexpected queue entry is recorded as the string "?"."""
+
+    def __init__(self, b):
+        self.b = b
+
+    def __enter__(self):
+        import heapq as real
+
+        import onnx_ir._core as core
+
+        b = self.b
+        if not hasattr(b, "heap_traces"):
+            b.heap_traces = []
+
+        def pos(q):
+            try:
+                return [-e[0] for e in q]
+            except Exception:  # noqa: BLE001
+                return "?"
+
+        class Proxy:
+            @staticmethod
+            def heapify(q):
+                r = real.heapify(q)
+                b.heap_traces.append({"steps": [], "final": pos(q)})
+                return r
+
+            @staticmethod
+            def heappop(q):
+                before = pos(q)
+                e = real.heappop(q)
+                if b.heap_traces:
+                    try:
+                        nid = b.nid.get(id(e[1]), "?")
+                    except Exception:  # noqa: BLE001
+                        nid = "?"
+                    b.heap_traces[-1]["steps"].append({"heap": before, "pop": nid})
+                    b.heap_traces[-1]["final"] = pos(q)
+                return e
+
+            @staticmethod
+            def heappush(q, x):
+                r = real.heappush(q, x)
+                if b.heap_traces:
+                    b.heap_traces[-1]["final"] = pos(q)
+                return r
+
+            def __getattr__(self, name):
+                return getattr(real, name)
+
+        self.core = core
+        self.saved = core.__dict__.get("heapq")
+        if self.saved is real:
+            core.heapq = Proxy()
+        return self
+
+    def __exit__(self, *exc):
+        if self.saved is not None and self.core.__dict__.get("heapq") is not self.saved:
+            self.core.heapq = self.saved
+        return False
+
+
 def run_real(b: Built, case, root=None, pre=None):
     """call the real sort through the requested entry point; returns (sorted root graph objects, outcome).
     `case["journal"]`: the call is made while a `Journal` records (the journaling wrappers replace Graph.extend,
@@ -1192,7 +1306,7 @@ def run_real(b: Built, case, root=None, pre=None):
     else:
         ctxm = contextlib.nullcontext()
     try:
-        with ctxm:
+        with ctxm, heap_spy(b):
             if entry == "graph":
                 b.root.sort()
             elif entry == "function":
@@ -1231,6 +1345,20 @@ def name_state(b: Built):
         a = g._name_authority
         st["auth"][gid] = (a._value_counter, a._node_counter, tuple(sorted(a._value_names)), tuple(sorted(a._node_names)))
     return st
+
+
+def only_named(nb, na):
+    """the difference between two name states is 'names were assigned': node.graph unchanged, every node / value / tensor
+    name that existed is unchanged (name authorities may have advanced)"""
+    for i, (g0, nm0) in nb["nodes"].items():
+        g1, nm1 = na["nodes"].get(i, ("?", None))
+        if g1 != g0 or (nm0 is not None and nm1 != nm0):
+            return False
+    for key, (nm0, t0) in nb["vals"].items():
+        nm1, t1 = na["vals"].get(key, (None, None))
+        if (nm0 is not None and nm1 != nm0) or (t0 is not None and t1 != t0):
+            return False
+    return True
 
 
 def inject(b: Built, case, step):
@@ -1507,7 +1635,9 @@ def sort_step(b: Built, case, root, part, step, edits):
     dupnodes = len({x[0] for x in pre_universe}) != len(pre_universe)  # a shared Graph object with nodes
     if (dupnodes or len(set(tree)) != len(tree)) and not case.get("shared"):
         part.disagree("encoding not well formed (duplicate node or graph id): hypothesis WF of the theorems", {"case": case})
+    b.heap_traces = []
     _roots, outcome = traced_sort(b, case, root)
+    heap_impl = b.heap_traces[0] if (b.heap_traces and entry != "pass") else None
     after = b.orders()
     nafter = name_state(b)
     canon = {"spec": spec, "entry": entry, "sub": case["sub"] if entry == "subgraph" else 0,
@@ -1552,14 +1682,17 @@ def sort_step(b: Built, case, root, part, step, edits):
         # rejects the whole sort; NOTHING may have been written: orders, node.graph, names, name authorities
         if after != before:
             part.fail(f"{sig_entry}:refused:order-changed", "sort rejected a node that cannot be re-added but some graph's order changed", rec)
-        if nafter != nbefore:
-            if entry == "pass":
-                # the pass met a cycle (ValueError) and its restore loop `graph_like.extend(original_nodes)` was itself
-                # rejected at the graph holding the refusing tensor: graph-likes restored before it got their unnamed
-                # nodes named, the caller sees AttributeError instead of ValueError (observation, see D391.md)
-                part.count("observation=D391:pass-restore-loop-rejected:names-assigned")
-            else:
-                part.fail(f"{sig_entry}:refused:names-changed", "sort rejected a node that cannot be re-added but names / node.graph / a name authority changed", rec)
+        if entry == "pass" and (flat_cyc or lifted_cyc):
+            # D392: the pass met a CYCLE (ValueError; nothing of this nest was sorted) and its restore loop
+            # `graph_like.extend(original_nodes)` re-extended the never-sorted graphs: it was itself rejected at the graph
+            # holding the refusing tensor - the caller sees AttributeError instead of the ValueError the property promises
+            part.fail(f"{sig_entry}:cycle:raises-AttributeError",
+                      "the dependencies contain a cycle but the pass raised AttributeError (restore loop re-extends never-sorted graphs) instead of ValueError", rec)
+            if nafter != nbefore:
+                part.fail(f"{sig_entry}:cycle:restore-loop-names-assigned",
+                          "cycle: the restore loop of the pass assigned names in graphs that were never sorted", rec)
+        elif nafter != nbefore:
+            part.fail(f"{sig_entry}:refused:names-changed", "sort rejected a node that cannot be re-added but names / node.graph / a name authority changed", rec)
         return {"kind": "refused", "case": case if step == 0 else dict(case, at_step=step, edits=edits), "outcome": outcome,
                 "after": {str(k): v for k, v in after.items()}}
     if refg:
@@ -1587,9 +1720,14 @@ def sort_step(b: Built, case, root, part, step, edits):
         if nm0 is not None and nafter["vals"].get(key, (None, None))[0] != nm0:
             part.fail(f"{sig_entry}:value-renamed", "sort changed the name of a named value", rec)
             break
-    if outcome == "raised" and nafter != nbefore and not (entry == "pass" and inj_info and inj_info["unnamed"]):
-        # (the restore step of the pass re-extends every recorded graph: unnamed nodes get names there)
-        part.fail(f"{sig_entry}:cycle-names-changed", "ValueError raised but names / a name authority changed", rec)
+    if outcome == "raised" and nafter != nbefore:
+        if entry == "pass" and only_named(nbefore, nafter):
+            # D392: the nest has a cycle, so none of its graphs was sorted; the restore loop of the pass re-extends them all
+            # the same and thereby names their unnamed nodes / outputs: a cycle does not leave everything unchanged
+            part.fail(f"{sig_entry}:cycle:restore-loop-names-assigned",
+                      "cycle: ValueError raised but the restore loop of the pass assigned names in graphs that were never sorted", rec)
+        else:
+            part.fail(f"{sig_entry}:cycle-names-changed", "ValueError raised but names / a name authority changed", rec)
     if outcome == "ok":
         for n in _uniq(_pre(b, root)):
             if n.name is None or any(v.name is None for v in n.outputs):
@@ -1640,6 +1778,8 @@ def sort_step(b: Built, case, root, part, step, edits):
         "req": {"m": "sort.sort", "graph": req_graph},
         "ureq": {"m": "sort.universe", "graph": req_graph},
         "hreq": {"m": "sort.hyp", "graph": req_graph},
+        "treq": {"m": "sort.heaptrace", "graph": req_graph},
+        "heap_impl": heap_impl,
         # (for a shared Graph object "enclosing graph" is ambiguous: the hypotheses are not compared there)
         "impl_hyp": None if case.get("shared") else {"ws": ws, "ordered": [[gid, pre_ordered[gid]] for gid in tree]},
         "impl": "raised" if outcome == "raised" else [[g, after[g]] for g in tree],
@@ -1796,9 +1936,40 @@ def check_cases(ctx: Ctx, cases: list) -> None:
             ctx.disagree(what, r["case"], o.get("after"), r["impl_after"])
     check_state(ctx, srecs)
     check_full(ctx, srecs)
-    reqs = [r["req"] for r in recs] + [r["ureq"] for r in recs] + [r["hreq"] for r in recs]
+    reqs = [r["req"] for r in recs] + [r["ureq"] for r in recs] + [r["hreq"] for r in recs] + [r["treq"] for r in recs]
     outs = lean_batch_parallel(reqs)
     n = len(recs)
+    for r, to in zip(recs, outs[3 * n :]):
+        # the real priority queue (positions, in heapq's list layout) before every heappop, the popped node, the queue
+        # at the end of the loop  vs  the Kahn loop on the transcribed binary heap (Model/SortHeap.lean)
+        hi = r.get("heap_impl")
+        if hi is None:
+            ctx.count("heap_trace=" + ("n/a:pass-entry" if r["case"].get("entry") == "pass" else "unobserved"))
+            continue
+        ctx.count("heap_trace=compared")
+        ctx.count("heap_trace_pops=" + str(min(len(hi["steps"]), 16) // 4 * 4))
+        msteps = [{"heap": x.get("heap"), "pop": x.get("pop")} for x in (to.get("steps") or [])]
+
+        def content(steps, final):
+            # what C12_heap_kahn_refines is about: which positions are queued before every pop, which node is popped
+            try:
+                return [(sorted(x["heap"]), x["pop"]) for x in steps], sorted(final)
+            except Exception:  # noqa: BLE001
+                return None
+
+        if content(msteps, to.get("final") or []) != content(hi["steps"], hi["final"]):
+            ctx.disagree("sort.heaptrace: queued positions before a heappop / popped node / final queue differ (kahnHeap != Graph.sort's heapq calls)",
+                         r["case"], {"steps": msteps, "final": to.get("final")}, hi)
+        elif msteps != hi["steps"] or to.get("final") != hi["final"]:
+            # same queue contents and pops but another list layout (e.g. a sorted list used as a heap): behaviour-preserving,
+            # the layout of heapq itself is compared in heap_cases
+            ctx.count("heap_trace_layout=differs")
+        elif not to.get("same"):
+            ctx.disagree("sort.heaptrace: traced loop != kahnHeap", r["case"], to, hi)
+        for x in to.get("steps") or []:
+            if not x.get("inv"):
+                ctx.disagree("sort.heaptrace: heap invariant false on a queue of the model (contradicts C12_heap_kahn_refines)", r["case"], x, None)
+                break
     for r, ho in zip(recs, outs[2 * n :]):
         # the hypotheses of C12_fixpoint* as defined in Lean vs the oracle's own reading on the real objects
         if r["impl_hyp"] is not None and {"ws": ho.get("ws"), "ordered": ho.get("ordered")} != r["impl_hyp"]:
@@ -1812,6 +1983,9 @@ def check_cases(ctx: Ctx, cases: list) -> None:
         if o.get("ids") != r["impl"]:
             # the transcription with identity-keyed dicts and a universe that may list a node twice (sortIds)
             ctx.disagree("sort.sort: identity-keyed transcription (sortIds) != Graph.sort", r["case"], o.get("ids"), r["impl"])
+        if o.get("heap") != r["impl"]:
+            # the same loop with the priority queue as heapq's binary heap (sortHeap; = sortIds by C12_heap_kahn_refines)
+            ctx.disagree("sort.sort: transcription with the binary heap (sortHeap) != Graph.sort", r["case"], o.get("heap"), r["impl"])
         if r.get("dup_root") is not None:
             ctx.count("ids_hyp_root_nodes_listed_once=" + str(not r["dup_root"]))
         mu = uo.get("r", uo)
@@ -1883,6 +2057,10 @@ def check_full(ctx: Ctx, srecs: list) -> None:
             ctx.count(f"full_{kind}_out=" + str(x["out"]))
             if x["pass"]:
                 ctx.count("full_hyp_pass_hyp=" + str(m.get("pass_hyp")))
+                # hypotheses of C12_passF_refines_passW (node.graph = listing container at every sort of the pass) and of
+                # C12_pass_success_sorted (no later sort writes a container of an earlier graph-like's tree)
+                ctx.count("full_hyp_pass_cons=" + str(m.get("pass_cons")))
+                ctx.count("full_hyp_pass_disj=" + str(m.get("pass_disj")))
                 ctx.count("full_pass_restored_graph_likes=" + str(min(len(m.get("gls") or []), 6) if x["out"] == "valueError" else "n/a"))
             else:
                 ctx.count("full_hyp_consistent=" + str(m.get("consistent")))
@@ -1915,6 +2093,12 @@ def check_full(ctx: Ctx, srecs: list) -> None:
                         ctx.disagree("sort.full: passW (containers only) differs from the real pass", case,
                                      [m.get("w_out"), m.get("w_after")], [x["out"], x["after"]])
                     ctx.count("full_passW_compared")
+                elif m.get("pass_cons") and m.get("out") == "refused":
+                    # C12_passF_refines_passW: the writes of a refused pass are a prefix of passW's
+                    wt = m.get("w_trace") or []
+                    if mt != wt[: len(mt)]:
+                        ctx.disagree("sort.full: writes of the refused passF are not a prefix of passW's (contradicts C12_passF_refines_passW)", case, mt, wt)
+                    ctx.count("full_pass_refused_prefix_checked")
             elif m.get("consistent") and m.get("out") in ("ok", "valueError", "recursionError") and m.get("sw_out") != m.get("out"):
                 ctx.disagree("sort.full: sortW differs from sortF on a consistent world (C12_full_refines_state)", case, m.get("sw_out"), m.get("out"))
 
@@ -1929,7 +2113,8 @@ def heap_cases(ctx: Ctx) -> None:
     reqs, impls, cases = [], [], []
     for _ in range(ctx.pick(300, 3000)):
         n = ctx.rng.randrange(0, 24)
-        keys = ctx.rng.sample(range(64), n)
+        dup = ctx.rng.random() < 0.3  # (the theorems do not need distinct keys: C12_heap_invariant / _extract_min)
+        keys = [ctx.rng.randrange(12) for _ in range(n)] if dup else ctx.rng.sample(range(64), n)
         k0 = ctx.rng.randrange(0, n + 1)
         init, rest = keys[:k0], keys[k0:]
         ops, h = [], list(init)
@@ -1958,9 +2143,17 @@ def heap_cases(ctx: Ctx) -> None:
         cases.append(case)
     outs = lean_batch_parallel(reqs)
     for case, (impl0, steps), out in zip(cases, impls, outs):
-        ctx.case(case, nontrivial=len(case["heap"]["ops"]) > 1, fn="heap", heap_ops=min(len(case["heap"]["ops"]), 40) // 8 * 8)
+        ks = case["heap"]["init"] + [o[1] for o in case["heap"]["ops"] if o[0] == "push"]
+        ctx.case(case, nontrivial=len(case["heap"]["ops"]) > 1, fn="heap", heap_ops=min(len(case["heap"]["ops"]), 40) // 8 * 8,
+                 heap_keys=("repeated" if len(set(ks)) != len(ks) else "distinct"))
         if out.get("heap0") != impl0:
             ctx.disagree("sort.heap: heapify differs", case, out.get("heap0"), impl0)
+        ipops = [x["pop"] for x in steps if "pop" in x]
+        if out.get("pops") != ipops:
+            ctx.disagree("sort.heap: runHeap (popped keys of the whole sequence) != heapq", case, out.get("pops"), ipops)
+        if out.get("abs") != ipops:
+            # C12_heap_extract_min: the abstract priority queue (remove one smallest key) answers alike
+            ctx.disagree("sort.heap: runAbs (abstract priority queue) != heapq", case, out.get("abs"), ipops)
         ms = out.get("steps") or []
         if len(ms) != len(steps):
             ctx.disagree("sort.heap: number of steps differs / driver error", case, str(out)[:200], len(steps))
